@@ -33,3 +33,10 @@ reg("C13", weave=["concurrency/fifo", "concurrency/cmap", "concurrency/lock"],
     stub=["critical sections, readers/writers and cancellers are harness clients; sync.Mutex/RWMutex acquisition order is decided by the simulator's lock model"],
     assumptions=["FIFO arrival = the instant a goroutine enters the channel send of the FIFO mutex (stamped by the simulator immediately before the operation executes)",
                  "clients pair their calls correctly; plain Delete/Clear of cmap.Mutex (not in the property's quantifier) are not issued"])
+reg("C14", weave=["concurrency/cmap", "concurrency/slice"],
+    quick_runs=320000, thorough_runs=6000000,
+    real=["concurrency/cmap/map.go", "concurrency/cmap/atomic.go", "concurrency/slice/slice.go", "ring/ring.go", "ring/buffered.go"],
+    stub=["sequential reference models (map, handle/counter map, slice) checked with porcupine; container/ring and a plain Go slice queue as references for the rings"],
+    assumptions=["ring.Ring / ring.Buffered have no concurrency: their part is a seeded sequential comparison against the reference, included as the refinement half of the property",
+                 "RemoveFront is only issued on a non-empty buffered ring (its result on an empty one is unspecified)"],
+    probes_required=["porcupine.checked", "ring.sequence", "buffered.sequence"])
